@@ -86,7 +86,7 @@ def c02_configs(tier, seed):
 
 PROPS["C02"] = dict(
     module="RaptorModel.Props.C02",
-    extra_theorem_modules=["RaptorModel.Props.C02Par"],
+    extra_theorem_modules=["RaptorModel.Props.C02Par", "RaptorModel.Props.C02Halo"],
     harnesses=["h_c02", "h_c07p"],
     configs=c02_configs,
     rule=("sequential: random matrices (0..10, rectangular, empty, duplicates, explicit zeros) in COO/CSR/CSC x 7 kernels; "
@@ -109,7 +109,7 @@ def seqpar_configs(h, quick_np, thorough_np):
 
 PROPS["C06"] = dict(
     module="RaptorModel.Props.C06",
-    extra_theorem_modules=["RaptorModel.Props.C06Par"],
+    extra_theorem_modules=["RaptorModel.Props.C06Par", "RaptorModel.Props.C06Halo"],
     harnesses=["h_c06"],
     configs=seqpar_configs("h_c06", [1, 2, 3, 4, 7], list(range(1, 17))),
     rule=("sequential: random conforming pairs (rectangular, empty rows/cols, duplicates, explicit zeros, +-1 values so that products cancel "
